@@ -607,14 +607,17 @@ func main() {
 	stage("alias", func() { aliasSweep(env, rep, rng, encs) })
 	stage("stream", func() { streamSweep(env, rep, rng, encs) })
 	stage("retry", func() { retrySweep(env, rep, rng, encs) })
+	// the two stages that meet allocation bombs in memory-limited child processes run before the
+	// in-process history stages: when a count check is gone, what they found is already in the report
+	// if a later in-process decode takes the harness down with it (C04-r7-2)
+	stage("nested", func() { nestedSweep(env, rep, rng, self) })
+	stage("hostile", func() { hostileSweep(env, rep, rng, encs, self) })
 	stage("after", func() { afterSweep(env, rep, rng, encs) })
 	stage("collision", func() { collisionHistory(env, rep, rng) })
 	stage("pooled", func() { pooledHistory(env, rep, rng) })
 	stage("witnesses", func() { witnesses(env, rep, self) })
 	stage("extra-reads", func() { extraSweep(env, rep, rng) })
 	stage("older-version", func() { olderVersion(env, rep, rng) })
-	stage("nested", func() { nestedSweep(env, rep, rng, self) })
-	stage("hostile", func() { hostileSweep(env, rep, rng, encs, self) })
 	rep.Write(env.Out)
 }
 
